@@ -2,7 +2,7 @@
 Leg M: KV.tla (reference) exhaustively, KVMem/KVCache refinement.  Leg R: edge cover of KV's
 state graph replayed on MemDB, CacheDB(MemDB), CacheDB(Bolt), BoltChainDB.  Leg T: exhaustive
 and random operation sequences on the real backends validated by TLC against KVTrace.tla."""
-import os, json, random, time, concurrent.futures as cf
+import re, os, json, random, time, concurrent.futures as cf
 import vlib
 from vlib import log
 
@@ -134,6 +134,20 @@ def run(tier):
     cb = vlib.go_run(cbin, "TestBackends", wd, env={"VERIF_HISTORIES": 10 if tier == "quick" else 120}, timeout=1800)
     verdict.add_all(cb["mismatches"])
     log("  chain store over the four backends: %d histories, %d backend comparisons, %d mismatches, %.1fs" % (cb["traces"], cb["evaluations"], len(cb["mismatches"]), cb["wall"]))
+    # ... also in what survives a stop of the process: crash/reopen histories of the chain store on
+    # MemDB, CacheDB(MemDB) and a Bolt file (harness/chainx TestDriver, durable mode); counted for C17:
+    # a backend-owned value changed in place / an uncommitted write visible after the stop / a fault
+    # or panic on one backend only.  (The reopen-consistency findings of these histories are C03's.)
+    cd = vlib.go_run(cbin, "TestDriver", wd, env={"VERIF_MODE": "durable", "VERIF_HISTORIES": 24 if tier == "quick" else 240, "VERIF_SHARDS": 1,
+                                                  "VERIF_MIN_BLOCKS": 15, "VERIF_MAX_BLOCKS": 35}, timeout=2400, tag="durable")
+    own = [m for m in cd["mismatches"] if re.search(r"uncommitted-visible|panic", m.get("sig", ""))]
+    verdict.add_all(own)
+    log("  chain store across process stops on 3 backends: %d histories, %d reopens, %d findings of this property" % (cd["traces"], cd.get("counts", {}).get("reopens", 0), len(own)))
+    for f in ("chaintrace-0.ndjson", "chaintrees-0.json"):
+        try:
+            os.remove(os.path.join(wd, f))
+        except OSError:
+            pass
     rc = verdict.finish()
     cov = {
         "states": sum(m.distinct for m in ms), "transitions": sum(m.generated for m in ms),
